@@ -20,22 +20,26 @@ CONSTANTS
   Concurrent = {conc}
   WithRejects = {rej}
   ExportOneIn = {one_in}
-INVARIANTS NoViolation CacheCounterExact ChunksAbut DurableIsPrefix Export
+INVARIANTS NoViolation CacheCounterExact ChunksAbut DurableIsPrefix Export {extra_inv}
 VIEW View
 ALIAS Alias
 CHECK_DEADLOCK FALSE
 """
 D = dict(votes="C_Votes", appids="C_AppIds", payloads="C_Payloads", trunc="C_TruncIdx", purge="C_PurgeIds",
          commit="C_CommitIds", users="C_Users", cfgs="C_Cfgs", calls=3, flush=1, reopen=0, crash=0, faults=0,
-         conc="FALSE", rej="FALSE", one_in=1)
+         conc="FALSE", rej="FALSE", one_in=1, extra_inv="")
 T = {
     # sequential instances (module MC_Seq)
     "MC_C01_q": dict(calls=3, flush=1),
     "MC_C01_t": dict(calls=4, flush=1, cfgs="C_CfgsWide"),
     "MC_C02_q": dict(calls=2, flush=2, reopen=2),
     "MC_C02_t": dict(calls=3, flush=2, reopen=2),
-    "MC_C06_q": dict(calls=3, flush=1, reopen=1, rej="TRUE"),
-    "MC_C06_t": dict(calls=4, flush=1, reopen=1, rej="TRUE"),
+    "MC_C06_q": dict(calls=2, flush=1, reopen=1, rej="TRUE"),
+    "MC_C06_t": dict(calls=3, flush=1, reopen=1, rej="TRUE"),
+    "MC_C10_q": dict(calls=3, flush=1, one_in=10, extra_inv="TailExact"),
+    "MC_C10_t": dict(calls=4, flush=1, one_in=100, cfgs="C_CfgsWide", extra_inv="TailExact"),
+    "MC_C09_q": dict(calls=3, flush=1, one_in=10, extra_inv="CorruptionReported MissingChunkReported"),
+    "MC_C09_t": dict(calls=4, flush=1, one_in=100, cfgs="C_CfgsWide", extra_inv="CorruptionReported MissingChunkReported"),
     "MC_C11_q": dict(calls=3, flush=1, cfgs="C_CfgsWide"),
     "MC_C11_t": dict(calls=4, flush=2, cfgs="C_CfgsWide"),
 }
